@@ -34,7 +34,7 @@ MINIMA = {'quick': {'heap_read': 2000, 'heap_push': 10000, 'search_reads': 20, '
 ENUM_LEN = {'quick': 5, 'thorough': 7}
 N_ENUM_CHUNKS = {'quick': 16, 'thorough': 64}
 N_RANDOM = {'quick': 48, 'thorough': 320}
-N_SEARCH = {'quick': 64, 'thorough': 400}
+N_SEARCH = {'quick': 120, 'thorough': 900}
 
 
 def n_cases(tier):
@@ -214,6 +214,15 @@ def run_search_case(spec):
   r, g = util.rngs(PROP, spec['seed'], spec['idx'])
   G = r.randrange(2, 6 if spec['tier'] == 'quick' else 7)
   case = sl.make_case(r, g, G, elig_extra='none')
+  if spec['idx'] % 3 == 0:
+    # very large response units (billions): the last score entry 1 / required impact becomes tiny, scores of designs
+    # that agree in the discrete entries differ only far below 1e-8
+    from mmv import gen  # pylint: disable=g-import-not-at-top
+    pn = case['panel']
+    pn['values'] = pn['values'] * 2.0 ** r.choice([24, 28, 32])
+    case['frame'] = gen.panel_frame(pn, r, shuffle=True)
+    case['params'].pop('budget_range', None)
+    case['params']['n_designs'] = r.choice([3, 5, 50, 100000])
   counters = collections.Counter()
   violations = []
   nontrivial = False
